@@ -48,8 +48,8 @@ ASSUMPTIONS = ["tables are written through cherab.openadas.repository.update_* (
                "arguments are finite doubles (no NaN / inf)"]
 QUICK = dict(cases=700, workers=2, timecap=45)
 THOROUGH = dict(cases=30000, workers=16, timecap=600)
-REQUIRED = {"knot": 20000, "nonneg": 5000, "nonpositive": 1500, "range_raise": 800, "range_finite": 800,
-            "isotope": 100, "wavelength": 100, "missing_raise": 150, "missing_null": 150}
+REQUIRED = {"knot": 60000, "nonneg": 60000, "nonpositive": 8000, "range_raise": 6000, "range_finite": 6000,
+            "isotope": 600, "wavelength": 500, "missing_raise": 400, "missing_null": 1200, "single_point": 300}
 
 HC_NM = 6.62607015e-34 * 299792458.0 * 1e9      # J.nm   (exact SI 2019 values)
 KNOT_RTOL = 1e-9
@@ -95,7 +95,7 @@ KEYFIELDS["beam_cx_pec"] = ["donor", "receiver", "receiver_charge", "transition"
 KEYFIELDS["wavelength"] = ["ion", "charge", "transition"]
 SPECIES_FIELDS = {"ion", "donor", "receiver", "beam", "plasma"}
 for _a in ACCESSORS:
-    REQUIRED["acc:" + _a] = 16      # accessor called with data present (2 cases x 8 flag combinations at least)
+    REQUIRED["acc:" + _a] = 64      # accessor calls with data present (>= 8 cases x 8 flag combinations)
 # (species field, charge field, charge offset) whose wavelength converts photons to watts
 WL_OF = {"impact_excitation_pec": ("ion", "charge", 0), "recombination_pec": ("ion", "charge", 0),
          "thermal_cx_pec": ("receiver", "receiver_charge", -1), "beam_emission_pec": ("beam", None, 0),
@@ -698,7 +698,6 @@ def _judge_wavelength_accessor(case, ctx, OpenADAS, path, wl_model):
     q = int(req["charge"])
     tk = _tkey(req["transition"])
     is_iso = sp in ISO2EL and _sym(sp) != _sym(_el_of(sp))
-    _seen_accessor(ctx, "wavelength")
     for pe in (False, True):
         for null in (False, True):
             for fb in (False, True):
@@ -710,6 +709,7 @@ def _judge_wavelength_accessor(case, ctx, OpenADAS, path, wl_model):
                 o = _call(adas.wavelength, _species(sp), q, tuple(req["transition"]))
                 ctx.nontrivial()
                 if want is not None:
+                    _seen_accessor(ctx, "wavelength")
                     if o.exc is not None:
                         ctx.mon("wavelength")
                         ctx.viol("present-data-raises:wavelength:%s" % type(o.exc).__name__,
